@@ -544,6 +544,28 @@ package generator
 //@   ensures [C01] fmt-iff-some-fragment-returns-errors: !g.config.OnlyModels ==> (has_import(g, "fmt") <==> (len(validators) >= 1 && abs_has_error(0)) || (len(validators) >= 2 && abs_has_error(1)) || (len(validators) >= 3 && abs_has_error(2)))
 //@   ensures [C01] no-stray-import: !g.config.OnlyModels ==> !has_import(g, "errors") && !has_import(g, "regexp") && !has_import(g, "math")
 
+// ---- a declared struct: every field's default and constraints reach the unmarshaler ----
+// generateType's result is narrowed to a struct with two string fields carrying
+// minLength, one of them with a default. The validators handed to
+// generateUnmarshaler are, field by field, the default (if any) and then the
+// field's constraints: a field with a default keeps its checks (C06, C05, C07),
+// and the default is assigned before the checks run (C09).
+//@ func (*schemaGenerator).generateUnmarshaler@callsite
+//@   trusted its own effects (methods, imports) are verified in its contract; at this call site only its arguments matter
+//@   assigns nothing
+//@ func (*schemaGenerator).generateDeclaredType@struct-arm
+//@   props C06 C05 C07 C09 C04
+//@   option verify-only
+//@   option inline (*schemaGenerator).structFieldValidators
+//@   option shape-zero t. scope.
+//@   option noframe
+//@   option results-of (*schemaGenerator).generateType = (struct:deffield; nil)
+//@   shape g = sgen()
+//@   shape t = new
+//@   shape t.Type = strs(object)
+//@   shape t.subSchemaType = ""
+//@   ensures [C06,C05,C07,C09,C04] defaults-then-constraints-for-every-field: result1 == nil && !g.config.OnlyModels ==> validator_kinds(call_arg("(*schemaGenerator).generateUnmarshaler", 2)) == "default,string,string"
+
 // ---- one schemaGenerator per document (newSchemaGenerator) ---------------------
 // The map that resolves "$ref" strings inside allOf/anyOf is per document: the
 // same string (say "#/$defs/Base") names different definitions in different
